@@ -7,7 +7,7 @@ from ..model import call_many
 from ..normtools import enc_def, enc_typ, state_of
 from ..pool import guarded, run_cases
 
-THEOREMS = ["C08_idempotent", "C08_rounds", "C08_nontrivial_round", "C08_rest_text_fixpoint", "C08_announced_line_fixpoint"]
+THEOREMS = ["C08_idempotent", "C08_rounds", "C08_nontrivial_round", "C08_rest_text_fixpoint", "C08_announced_line_fixpoint", "C08_unquote_quote", "C08_quote_refuted"]
 # (tag, format, cfg, IR domain)
 CONFIGS = [("docstring-rest", "docstring", {"docstring_format": "rest"}, "any"),
            ("docstring-rest-edd", "docstring", {"docstring_format": "rest", "parse_emit_default_doc": True}, "any"),
@@ -158,6 +158,14 @@ def collect(ctx, n_ir, rounds_max):
                 work.append((tag, fmt, cfg, ir, 3))
     agg = {"n": 0, "stable": 0, "changed_in_round1": 0, "ed": 0}
     items, corr = [], []
+    QA = ['"', "'", "a", " ", '""', "''", "x y", "`", "'q'", '"q"', "it's", ""]
+    qs = ["".join(rng.choice(QA) for _ in range(rng.randint(0, 4))) for _ in range(20 * n_ir)] + QA
+    from cdd.shared.pure_utils import unquote as _unquote, quote as _quote
+    for q_, m_, mq_ in zip(qs, call_many("unquote", qs), call_many("quote", qs)):
+        if _unquote(q_) != m_:
+            corr.append({"stage": "unquote", "input": q_, "impl": _unquote(q_), "model": m_})
+        if _quote(q_) != mq_:
+            corr.append({"stage": "quote", "input": q_, "impl": _quote(q_), "model": mq_})
     n_ed, _found, bad = edtie.compare([(edtie.gen(rng), rng.random() < 0.5) for _ in range(40 * n_ir)])
     agg["ed"] = n_ed
     corr += bad[:3]
